@@ -200,14 +200,18 @@ Proof.
   rule "padding" ["SPACE"]. dend.
 Qed.
 
-Lemma comment_toks_padc : forall cs last, Forall padc (classes (comment_toks cs last)).
+Lemma sp_tok_padc : forall s, Forall padc (classes (sp_tok s)).
+Proof. destruct s; simpl; constructor; [unfold padc; auto|constructor]. Qed.
+
+Lemma cline_tok_class : forall b, fst (cline_tok b) = "COMMENT".
+Proof. destruct b; reflexivity. Qed.
+
+Lemma comment_rest_padc : forall cs pre last, Forall padc (classes (comment_rest pre cs last)).
 Proof.
-  induction cs as [|c cs IH]; intros last; simpl.
-  - constructor.
-  - destruct cs as [|c' cs'].
-    + simpl. constructor; [unfold padc; auto|]. constructor; [unfold padc; auto|]. constructor.
-    + rewrite !classes_cons. simpl fst. constructor; [unfold padc; auto|].
-      constructor; [unfold padc; auto|]. apply IH.
+  induction cs as [|[ind b] cs IH]; intros pre last; simpl.
+  - apply sp_tok_padc.
+  - rewrite classes_app, classes_cons, cline_tok_class. apply Forall_app. split; [apply sp_tok_padc|].
+    constructor; [unfold padc; auto|]. apply IH.
 Qed.
 
 Lemma pad_derives : forall p, Derives G "padding" (classes (pad_toks p)).
@@ -215,11 +219,13 @@ Proof.
   destruct p; simpl.
   - apply pad_space_list. constructor.
   - apply pad_space_list. constructor.
+  - apply pad_space_list. constructor.
   - apply pad_space_list. constructor; [unfold padc; auto|]. constructor; [unfold padc; auto|]. constructor.
   - apply pad_space_list. constructor; [unfold padc; auto|]. constructor.
-  - destruct cs as [|c cs].
+  - destruct cs as [|[ind b] cs].
     + apply pad_space_list. constructor.
-    + rewrite classes_cons. simpl fst. apply pad_space_list. apply comment_toks_padc.
+    + rewrite !classes_cons, cline_tok_class. cbn [fst]. apply pad_space_list.
+      constructor; [unfold padc; auto|]. apply comment_rest_padc.
   - apply pad_space_list. constructor; [unfold padc; auto 6|]. constructor; [unfold padc; auto|]. constructor.
 Qed.
 
@@ -597,7 +603,7 @@ Qed.
 (* ---- parameter values *)
 Lemma cvseq_derives : forall s, cvseq_ok s = true -> Derives G "number_sequence" (classes (cvseq_toks s)).
 Proof.
-  induction s as [l|s IH b p|s IH i p|s IH inner p|inner p]; simpl; intros H.
+  induction s as [l|s IH b p|s IH i p|s IH pl inner p|pl inner p]; simpl; intros H.
   - apply nlist_derives; [exact Hb|assumption].
   - specialize (IH H). rewrite !classes_app. simpl classes at 2.
     rule "number_sequence" ["number_sequence"; ":"; "numerical_phrase"].
@@ -610,16 +616,18 @@ Proof.
       apply DF_cons; [assumption|apply DF_last; assumption].
     + rule "number_sequence" ["number_sequence"; "shortcut_phrase"].
       apply DF_cons; [assumption|apply DF_last; assumption].
-  - apply andb_true_iff in H. destruct H as [Hs Hi]. specialize (IH Hs).
+  - apply andb_true_iff in H. destruct H as [H Hpl]. destruct pl; [discriminate|].
+    apply andb_true_iff in H. destruct H as [Hs Hi]. specialize (IH Hs).
     pose proof (nlist_derives G Hb inner Hi) as Hin.
-    destruct p as [q|]; simpl opad_toks; cls.
+    destruct p as [q|]; simpl opad_toks; cls; rewrite ?app_nil_l.
     + rule "number_sequence" ["number_sequence"; "("; "number_sequence"; ")"; "padding"].
       apply DF_cons; [assumption|]. dtok. apply DF_cons; [assumption|]. dtok.
       apply DF_last. apply pad_derives; exact Hb.
     + rule "number_sequence" ["number_sequence"; "("; "number_sequence"; ")"].
       apply DF_cons; [assumption|]. dtok. apply DF_cons; [assumption|]. dend.
-  - pose proof (nlist_derives G Hb inner H) as Hin.
-    destruct p as [q|]; simpl opad_toks; cls.
+  - apply andb_true_iff in H. destruct H as [H Hpl]. destruct pl; [discriminate|].
+    pose proof (nlist_derives G Hb inner H) as Hin.
+    destruct p as [q|]; simpl opad_toks; cls; rewrite ?app_nil_l.
     + rule "number_sequence" ["("; "number_sequence"; ")"; "padding"]. dtok.
       apply DF_cons; [assumption|]. dtok. apply DF_last. apply pad_derives; exact Hb.
     + rule "number_sequence" ["("; "number_sequence"; ")"]. dtok.
@@ -824,6 +832,17 @@ Definition required_intro : list production := [
   ("classifier_phrase", ["classifier"; "padding"])
 ].
 
+Lemma incl_app_l : forall (A : Type) (a b G : list A), incl (a ++ b) G -> incl a G.
+Proof. intros A a b G H x Hx. apply H. apply in_or_app. left. assumption. Qed.
+Lemma incl_app_r : forall (A : Type) (a b G : list A), incl (a ++ b) G -> incl b G.
+Proof. intros A a b G H x Hx. apply H. apply in_or_app. right. assumption. Qed.
+
+Lemma word_class_prefc : forall w, prefc (word_class w).
+Proof.
+  intros w. unfold word_class, prefc.
+  destruct (mem_str w Gen.Tables.keywords); [auto|]. destruct (mem_str w Gen.Tables.particles); auto.
+Qed.
+
 Section Intro.
 Variable G : list production.
 Hypothesis Hb : incl required_base G.
@@ -839,22 +858,23 @@ Qed.
 Lemma dcls_derives : forall d, Derives G "classifier" (classes (dcls_toks d)).
 Proof.
   intros d. unfold dcls_toks.
-  pose proof (classifier_derives G Hp (if d_star d then Some "PARTICLE_SPECIAL" else None)
-                (pclass_name (d_pclass d)) (match d_num d with Some _ => true | None => false end)
+  pose proof (classifier_derives G Hp (match d_mod d with Some _ => Some "PARTICLE_SPECIAL" | None => None end)
+                (word_class (d_prefix d)) (match d_num d with Some _ => true | None => false end)
                 (map dpart_tok (d_parts d))) as HC.
   rewrite !classes_app.
   match goal with
   | |- Derives _ _ ?L =>
       replace L with
-        ((match (if d_star d then Some "PARTICLE_SPECIAL" else None) with Some m => [m] | None => [] end)
-         ++ [pclass_name (d_pclass d)]
+        ((match (match d_mod d with Some _ => Some "PARTICLE_SPECIAL" | None => None end) with
+          | Some m => [m] | None => [] end)
+         ++ [word_class (d_prefix d)]
          ++ (if (match d_num d with Some _ => true | None => false end) then ["NUMBER"] else [])
          ++ classes (parts_toks true (map dpart_tok (d_parts d))))
-        by (destruct (d_star d); destruct (d_num d); reflexivity)
+        by (destruct (d_mod d); destruct (d_num d); reflexivity)
   end.
   apply HC.
-  - destruct (d_star d); [right; reflexivity|exact I].
-  - destruct (d_pclass d); unfold prefc; simpl; auto.
+  - destruct (d_mod d); [right; reflexivity|exact I].
+  - apply word_class_prefc.
   - apply dparts_partc.
 Qed.
 
@@ -888,105 +908,481 @@ Proof.
 Qed.
 End Intro.
 
+(* particle lists (MODE n p e; the option letter of SI/SP; PAR=n) *)
+Definition required_particles : list production := [
+  ("particle_sequence", ["particle_phrase"]);
+  ("particle_sequence", ["particle_sequence"; "particle_phrase"]);
+  ("particle_phrase", ["particle_text"]);
+  ("particle_phrase", ["particle_text"; "padding"]);
+  ("particle_text", ["PARTICLE"]);
+  ("particle_text", ["PARTICLE_SPECIAL"])
+].
+
+Section Particles.
+Variable G : list production.
+Hypothesis Hb : incl required_base G.
+Hypothesis Hq : incl required_particles G.
+
+Lemma particle_phrase_derives : forall c op, partc c ->
+  Derives G "particle_phrase" (c :: classes (opad_toks op)).
+Proof.
+  intros c op Hc.
+  assert (Ht : Derives G "particle_text" [c]).
+  { destruct Hc as [H|H]; subst.
+    - rule "particle_text" ["PARTICLE"]. dend.
+    - rule "particle_text" ["PARTICLE_SPECIAL"]. dend. }
+  destruct op as [p|]; simpl opad_toks.
+  - rule "particle_phrase" ["particle_text"; "padding"].
+    change (c :: classes (pad_toks p)) with ([c] ++ classes (pad_toks p)).
+    apply DF_cons; [exact Ht|]. apply DF_last. apply pad_derives; exact Hb.
+  - rule "particle_phrase" ["particle_text"]. apply DF_last. exact Ht.
+Qed.
+
+Lemma ptok_derives : forall p : ptok, Derives G "particle_phrase" (classes (ptok_toks p)).
+Proof.
+  intros [[b x] op]. unfold ptok_toks. simpl fst. simpl snd. rewrite classes_cons.
+  apply particle_phrase_derives. unfold dpart_tok. simpl. destruct b; [right|left]; reflexivity.
+Qed.
+
+Lemma ptoks_derives : forall p ps,
+  Derives G "particle_sequence" (classes (ptok_toks p) ++ flat_map (fun q => classes (ptok_toks q)) ps).
+Proof.
+  intros p ps.
+  apply (leftrec_derives G "particle_sequence" "particle_phrase") with (f := fun q => classes (ptok_toks q)).
+  - use_prod.
+  - use_prod.
+  - apply Forall_forall. intros q _. apply ptok_derives.
+Qed.
+End Particles.
+
 Definition required_data_only : list production := [
   ("data_input", ["introduction"]);
   ("data_input", ["introduction"; "data"]);
-  ("data", ["number_sequence"])
+  ("data_input", ["introduction"; "data"; "parameters"]);
+  ("data_input", ["introduction"; "parameters"]);
+  ("data", ["number_sequence"]);
+  ("data", ["particle_sequence"]);
+  ("data", ["kitchen_sink"]);
+  ("kitchen_sink", ["kitchen_junk"]);
+  ("kitchen_sink", ["kitchen_sink"; "kitchen_junk"]);
+  ("kitchen_junk", ["particle_sequence"]);
+  ("kitchen_junk", ["number_sequence"]);
+  ("data_prefix", ["TALLY_COMMENT"]);
+  ("data_prefix", ["SOURCE_COMMENT"])
 ].
 Definition required_data : list production :=
-  required_base ++ required_params ++ required_intro ++ required_data_only.
-
-Ltac split_incl H :=
-  let p := fresh "p" in let Hp := fresh "Hp" in
-  intros p Hp; apply H; repeat (apply in_or_app; first [left; exact Hp | right]); try exact Hp.
+  required_base ++ required_params ++ required_intro ++ required_particles ++ required_data_only.
 
 Section Data.
 Variable G : list production.
 Hypothesis Hdata : incl required_data G.
 
 Lemma Hd_base : incl required_base G.
-Proof. intros p Hp. apply Hdata. unfold required_data. apply in_or_app. left. assumption. Qed.
+Proof. exact (incl_app_l _ _ _ _ Hdata). Qed.
 Lemma Hd_par : incl required_params G.
-Proof. intros p Hp. apply Hdata. unfold required_data. apply in_or_app. right. apply in_or_app. left. assumption. Qed.
+Proof. exact (incl_app_l _ _ _ _ (incl_app_r _ _ _ _ Hdata)). Qed.
 Lemma Hd_intro : incl required_intro G.
-Proof.
-  intros p Hp. apply Hdata. unfold required_data. apply in_or_app. right. apply in_or_app. right.
-  apply in_or_app. left. assumption.
-Qed.
+Proof. exact (incl_app_l _ _ _ _ (incl_app_r _ _ _ _ (incl_app_r _ _ _ _ Hdata))). Qed.
+Lemma Hd_parts : incl required_particles G.
+Proof. exact (incl_app_l _ _ _ _ (incl_app_r _ _ _ _ (incl_app_r _ _ _ _ (incl_app_r _ _ _ _ Hdata)))). Qed.
 Lemma Hd_only : incl required_data_only G.
-Proof.
-  intros p Hp. apply Hdata. unfold required_data. apply in_or_app. right. apply in_or_app. right.
-  apply in_or_app. right. assumption.
-Qed.
+Proof. exact (incl_app_r _ _ _ _ (incl_app_r _ _ _ _ (incl_app_r _ _ _ _ (incl_app_r _ _ _ _ Hdata)))). Qed.
 Let Ho := Hd_only.
+
+Lemma ddata_derives : forall d, ddata_ok d = true -> d <> DNone ->
+  Derives G "data" (classes (ddata_toks d)).
+Proof.
+  intros d Hok Hne. destruct d as [|l|p ps|o p l]; simpl in Hok; cbn [ddata_toks].
+  - congruence.
+  - rule "data" ["number_sequence"]. apply DF_last. apply (nlist_derives G Hd_base l Hok).
+  - rewrite classes_app, classes_flat_map.
+    rule "data" ["particle_sequence"]. apply DF_last. apply (ptoks_derives G Hd_base Hd_parts).
+  - apply andb_true_iff in Hok. destruct Hok as [_ Hl].
+    rewrite classes_cons, classes_app. cbn [fst].
+    rule "data" ["kitchen_sink"]. apply DF_last.
+    rule "kitchen_sink" ["kitchen_sink"; "kitchen_junk"].
+    change ("PARTICLE" :: classes (pad_toks p) ++ classes (nlist_toks l))
+      with (("PARTICLE" :: classes (pad_toks p)) ++ classes (nlist_toks l)).
+    apply DF_cons.
+    + rule "kitchen_sink" ["kitchen_junk"]. apply DF_last.
+      rule "kitchen_junk" ["particle_sequence"]. apply DF_last.
+      rule "particle_sequence" ["particle_phrase"]. apply DF_last.
+      apply (particle_phrase_derives G Hd_base Hd_parts "PARTICLE" (Some p)). left. reflexivity.
+    + apply DF_last. rule "kitchen_junk" ["number_sequence"]. apply DF_last.
+      apply (nlist_derives G Hd_base l Hl).
+Qed.
+
+Lemma dparam_derives : forall p, dparam_ok p = true -> Derives G "parameter" (classes (dparam_toks p)).
+Proof.
+  intros p H. unfold dparam_ok in H. unfold dparam_toks. rewrite classes_cons, classes_app. cbn [fst].
+  assert (Hk : Derives G "classifier" [word_class (dp_key p)]).
+  { rule "classifier" ["data_prefix"]. apply DF_last.
+    destruct (word_class_prefc (dp_key p)) as [E|[E|E]]; rewrite E.
+    - rule "data_prefix" ["TEXT"]. dend.
+    - rule "data_prefix" ["KEYWORD"]. dend.
+    - rule "data_prefix" ["PARTICLE"]. dend. }
+  rule "parameter" ["classifier"; "param_seperator"; "number_sequence"].
+  change (word_class (dp_key p) :: classes (sep_toks (dp_sep p)) ++ classes (nlist_toks (dp_val p)))
+    with ([word_class (dp_key p)] ++ classes (sep_toks (dp_sep p)) ++ classes (nlist_toks (dp_val p))).
+  apply DF_cons; [exact Hk|]. apply DF_cons; [apply sep_derives; [exact Hd_base|exact Hd_par]|].
+  apply DF_last. apply (nlist_derives G Hd_base _ H).
+Qed.
 
 Theorem data_derivable : forall d, data_shape d -> Derives G "data_input" (classes (data_toks d)).
 Proof.
-  intros d H. unfold data_shape, data_shape_b in H. apply andb_true_iff in H. destruct H as [Hc Hl].
+  intros d H. unfold data_shape, data_shape_b in H.
+  apply andb_true_iff in H. destruct H as [H Hps]. apply andb_true_iff in H. destruct H as [Hc Hd].
   pose proof (intro_derives G Hd_base Hd_intro (dc_lead d) _ (dc_pad d) (dc_kw d)
                 (dcls_derives G Hd_par (dc_cls d))) as HI.
+  assert (HP : dc_params d <> [] ->
+               Derives G "parameters" (classes (flat_map dparam_toks (dc_params d)))).
+  { intros Hne. rewrite classes_flat_map. apply parameters_derives; [exact Hd_par|assumption|].
+    apply Forall_forall. intros x Hx. apply dparam_derives. rewrite forallb_forall in Hps. apply Hps. assumption. }
   unfold data_toks. rewrite !classes_app.
-  destruct (dc_data d) as [l|].
-  - rule "data_input" ["introduction"; "data"].
-    rewrite !app_assoc. apply DF_cons.
-    + rewrite <- !app_assoc. exact HI.
-    + apply DF_last. rule "data" ["number_sequence"]. apply DF_last.
-      apply (nlist_derives G Hd_base l Hl).
-  - rewrite ?classes_nil, ?classes_nil', app_nil_r.
-    rule "data_input" ["introduction"]. apply DF_last. exact HI.
+  match goal with
+  | |- Derives _ _ (?A ++ ?B ++ ?C ++ ?D ++ ?E ++ ?F) =>
+      replace (A ++ B ++ C ++ D ++ E ++ F) with ((A ++ B ++ C ++ D) ++ E ++ F)
+        by (rewrite <- !app_assoc; reflexivity)
+  end.
+  destruct (dc_data d) as [|l|p ps|o p l] eqn:Ed; destruct (dc_params d) as [|q qs] eqn:Eq;
+    try (assert (HD : Derives G "data" (classes (ddata_toks (dc_data d))))
+           by (apply ddata_derives; [rewrite Ed; exact Hd | rewrite Ed; discriminate]); rewrite Ed in HD).
+  - simpl. rewrite !app_nil_r. rule "data_input" ["introduction"]. apply DF_last. exact HI.
+  - simpl ddata_toks. rewrite classes_nil, app_nil_l.
+    rule "data_input" ["introduction"; "parameters"]. apply DF_cons; [exact HI|]. apply DF_last.
+    apply HP. discriminate.
+  - simpl flat_map. rewrite classes_nil, app_nil_r.
+    rule "data_input" ["introduction"; "data"]. apply DF_cons; [exact HI|]. apply DF_last. exact HD.
+  - rule "data_input" ["introduction"; "data"; "parameters"]. apply DF_cons; [exact HI|].
+    apply DF_cons; [exact HD|]. apply DF_last. apply HP. discriminate.
+  - simpl flat_map. rewrite classes_nil, app_nil_r.
+    rule "data_input" ["introduction"; "data"]. apply DF_cons; [exact HI|]. apply DF_last. exact HD.
+  - rule "data_input" ["introduction"; "data"; "parameters"]. apply DF_cons; [exact HI|].
+    apply DF_cons; [exact HD|]. apply DF_last. apply HP. discriminate.
+  - simpl flat_map. rewrite classes_nil, app_nil_r.
+    rule "data_input" ["introduction"; "data"]. apply DF_cons; [exact HI|]. apply DF_last. exact HD.
+  - rule "data_input" ["introduction"; "data"; "parameters"]. apply DF_cons; [exact HI|].
+    apply DF_cons; [exact HD|]. apply DF_last. apply HP. discriminate.
+Qed.
+
+(* FCn / SCn: one token *)
+Theorem text_derivable : forall x, Derives G "data_input" (classes (text_toks x)).
+Proof.
+  intros x. unfold text_toks. rewrite classes_app.
+  set (c := if x_source x then "SOURCE_COMMENT" else "TALLY_COMMENT").
+  change (classes [(c, x_text x)]) with [c].
+  assert (Hcl : Derives G "classifier" [c]).
+  { rule "classifier" ["data_prefix"]. apply DF_last. unfold c. destruct (x_source x).
+    - rule "data_prefix" ["SOURCE_COMMENT"]. dend.
+    - rule "data_prefix" ["TALLY_COMMENT"]. dend. }
+  pose proof (intro_derives G Hd_base Hd_intro (x_lead x) _ None None Hcl) as HI.
+  rewrite ?classes_nil, ?classes_nil', !app_nil_r in HI.
+  rule "data_input" ["introduction"]. apply DF_last. exact HI.
 Qed.
 End Data.
 
-(* ---- the same cards under the tally parsers (F, FM: TallyParser; FS: TallySegmentParser) *)
-Definition required_tally_only : list production := [
+(* ------------------------------------------------------------------ the classifier alone (ClassifierParser:
+   what parse_data reads first to choose the class of a data input) *)
+Definition required_classifier_only : list production := [
+  ("data_classifier", ["classifier"]);
+  ("data_classifier", ["padding"; "classifier"]);
+  ("data_prefix", ["TALLY_COMMENT"]);
+  ("data_prefix", ["SOURCE_COMMENT"])
+].
+Definition required_classifier : list production :=
+  required_base ++ required_params ++ required_classifier_only.
+
+Section Classifier.
+Variable G : list production.
+Hypothesis Hcls : incl required_classifier G.
+Lemma Hk_base : incl required_base G.
+Proof. exact (incl_app_l _ _ _ _ Hcls). Qed.
+Lemma Hk_par : incl required_params G.
+Proof. exact (incl_app_l _ _ _ _ (incl_app_r _ _ _ _ Hcls)). Qed.
+Lemma Hk_only : incl required_classifier_only G.
+Proof. exact (incl_app_r _ _ _ _ (incl_app_r _ _ _ _ Hcls)). Qed.
+Let Ho := Hk_only.
+
+Lemma lead_classifier : forall lead cl, Derives G "classifier" cl ->
+  Derives G "data_classifier" (classes (opad_toks lead) ++ cl).
+Proof.
+  intros lead cl H. destruct lead as [p|]; simpl opad_toks.
+  - rule "data_classifier" ["padding"; "classifier"]. apply DF_cons; [apply pad_derives; exact Hk_base|].
+    apply DF_last. exact H.
+  - rewrite ?classes_nil, ?classes_nil', app_nil_l. rule "data_classifier" ["classifier"]. apply DF_last. exact H.
+Qed.
+
+Lemma m_classifier : Derives G "classifier" ["TEXT"; "NUMBER"].
+Proof.
+  rule "classifier" ["classifier"; "NUMBER"]. change ["TEXT"; "NUMBER"] with (["TEXT"] ++ ["NUMBER"]).
+  apply DF_cons; [|dend]. rule "classifier" ["data_prefix"]. apply DF_last. rule "data_prefix" ["TEXT"]. dend.
+Qed.
+
+(* every data shape: the tokens up to the end of the classifier are a sentence of ClassifierParser *)
+Theorem classifier_derivable : forall sh, classifier_toks sh <> [] ->
+  Derives G "data_classifier" (classes (classifier_toks sh)).
+Proof.
+  intros sh Hne. destruct sh; cbn [classifier_toks] in *; try congruence.
+  - rewrite classes_app. apply lead_classifier. apply (dcls_derives G Hk_par).
+  - rewrite classes_app. apply lead_classifier. exact m_classifier.
+  - rewrite classes_app. apply lead_classifier. exact m_classifier.
+  - rewrite classes_app. apply lead_classifier. apply (dcls_derives G Hk_par).
+  - rewrite classes_app. apply lead_classifier. apply (dcls_derives G Hk_par).
+  - rewrite classes_app. apply lead_classifier. apply (dcls_derives G Hk_par).
+  - unfold text_toks. rewrite classes_app. apply lead_classifier.
+    rule "classifier" ["data_prefix"]. apply DF_last. destruct (x_source x); simpl.
+    + rule "data_prefix" ["SOURCE_COMMENT"]. dend.
+    + rule "data_prefix" ["TALLY_COMMENT"]. dend.
+Qed.
+End Classifier.
+
+(* ------------------------------------------------------------------ tallies F, FM (TallyParser) *)
+Definition required_tally_common : list production := [
   ("tally", ["introduction"; "tally_specification"]);
   ("tally_specification", ["tally_numbers"]);
-  ("tally_numbers", ["number_sequence"])
+  ("tally_specification", ["tally_numbers"; "end_phrase"]);
+  ("end_phrase", ["PARTICLE"]);
+  ("end_phrase", ["PARTICLE"; "padding"]);
+  ("tally_numbers", ["number_sequence"]);
+  ("tally_numbers", ["tally_numbers"; "tally_numbers"])
+].
+Definition required_tally_groups : list production := [
+  ("tally_numbers", ["tally_group"]);
+  ("tally_numbers", ["tally_numbers"; "padding"]);
+  ("tally_group", ["("; "number_sequence"; ")"]);
+  ("tally_group", ["("; "padding"; "number_sequence"; ")"])
 ].
 Definition required_tally : list production :=
-  required_base ++ required_params ++ required_intro ++ required_tally_only.
+  required_base ++ required_params ++ required_intro ++ required_tally_common ++ required_tally_groups.
+Definition required_tally_seg : list production :=
+  required_base ++ required_params ++ required_intro ++ required_tally_common.
+
+Section TallyCommon.
+Variable G : list production.
+Hypothesis Hb : incl required_base G.
+Hypothesis Hp : incl required_params G.
+Hypothesis Hi : incl required_intro G.
+Hypothesis Hc : incl required_tally_common G.
+
+(* items that are already [tally_numbers] concatenate to [tally_numbers] *)
+Lemma tally_numbers_more : forall (f : titem -> list string) l pre,
+  Derives G "tally_numbers" pre -> Forall (fun x => Derives G "tally_numbers" (f x)) l ->
+  Derives G "tally_numbers" (pre ++ flat_map f l).
+Proof.
+  induction l as [|x l IH]; intros pre Hpre Hall; simpl.
+  - rewrite app_nil_r. assumption.
+  - inversion Hall; subst. rewrite app_assoc. apply IH; auto.
+    rule "tally_numbers" ["tally_numbers"; "tally_numbers"].
+    apply DF_cons; [assumption|apply DF_last; assumption].
+Qed.
+
+Lemma tally_assemble : forall t,
+  Forall (fun x => Derives G "tally_numbers" (classes (titem_toks x))) (tc_first t :: tc_rest t) ->
+  Derives G "tally" (classes (tally_toks t)).
+Proof.
+  intros t Hall. inversion Hall as [|x l H1 H2]; subst.
+  pose proof (intro_derives G Hb Hi (tc_lead t) _ (tc_pad t) None (dcls_derives G Hp (tc_cls t))) as HI.
+  rewrite ?classes_nil, ?classes_nil', app_nil_r in HI.
+  pose proof (tally_numbers_more (fun x => classes (titem_toks x)) (tc_rest t) _ H1 H2) as HN.
+  unfold tally_toks. rewrite !classes_app, classes_flat_map.
+  match goal with
+  | |- Derives _ _ (?A ++ ?B ++ ?C ++ ?D ++ ?E ++ ?F) =>
+      replace (A ++ B ++ C ++ D ++ E ++ F) with ((A ++ B ++ C) ++ (D ++ E) ++ F)
+        by (rewrite <- !app_assoc; reflexivity)
+  end.
+  rule "tally" ["introduction"; "tally_specification"]. apply DF_cons; [exact HI|]. apply DF_last.
+  destruct (tc_end t) as [[e p]|]; simpl tend_toks.
+  - rewrite classes_cons. cbn [fst].
+    rule "tally_specification" ["tally_numbers"; "end_phrase"]. apply DF_cons; [exact HN|]. apply DF_last.
+    destruct p as [q|]; simpl opad_toks.
+    + rule "end_phrase" ["PARTICLE"; "padding"]. dtok. apply DF_last. apply pad_derives; exact Hb.
+    + rule "end_phrase" ["PARTICLE"]. dend.
+  - rewrite ?classes_nil, ?classes_nil', app_nil_r.
+    rule "tally_specification" ["tally_numbers"]. apply DF_last. exact HN.
+Qed.
+
+Lemma tinums_derives : forall l, nlist_ok l = true ->
+  Derives G "tally_numbers" (classes (titem_toks (TINums l))).
+Proof.
+  intros l H. simpl titem_toks. rule "tally_numbers" ["number_sequence"]. apply DF_last.
+  apply (nlist_derives G Hb l H).
+Qed.
+End TallyCommon.
 
 Section Tally.
 Variable G : list production.
 Hypothesis Htally : incl required_tally G.
-
 Lemma Ht_base : incl required_base G.
-Proof. intros p Hp. apply Htally. unfold required_tally. apply in_or_app. left. assumption. Qed.
+Proof. exact (incl_app_l _ _ _ _ Htally). Qed.
 Lemma Ht_par : incl required_params G.
-Proof. intros p Hp. apply Htally. unfold required_tally. apply in_or_app. right. apply in_or_app. left. assumption. Qed.
+Proof. exact (incl_app_l _ _ _ _ (incl_app_r _ _ _ _ Htally)). Qed.
 Lemma Ht_intro : incl required_intro G.
-Proof.
-  intros p Hp. apply Htally. unfold required_tally. apply in_or_app. right. apply in_or_app. right.
-  apply in_or_app. left. assumption.
-Qed.
-Lemma Ht_only : incl required_tally_only G.
-Proof.
-  intros p Hp. apply Htally. unfold required_tally. apply in_or_app. right. apply in_or_app. right.
-  apply in_or_app. right. assumption.
-Qed.
-Let Ho := Ht_only.
+Proof. exact (incl_app_l _ _ _ _ (incl_app_r _ _ _ _ (incl_app_r _ _ _ _ Htally))). Qed.
+Lemma Ht_common : incl required_tally_common G.
+Proof. exact (incl_app_l _ _ _ _ (incl_app_r _ _ _ _ (incl_app_r _ _ _ _ (incl_app_r _ _ _ _ Htally)))). Qed.
+Lemma Ht_groups : incl required_tally_groups G.
+Proof. exact (incl_app_r _ _ _ _ (incl_app_r _ _ _ _ (incl_app_r _ _ _ _ (incl_app_r _ _ _ _ Htally)))). Qed.
+Let Ho := Ht_groups.
 
-Theorem tally_derivable : forall d, data_shape d -> dc_data d <> None ->
-  Derives G "tally" (classes (data_toks d)).
+Lemma titem_derives : forall x, titem_ok x = true -> Derives G "tally_numbers" (classes (titem_toks x)).
 Proof.
-  intros d H Hne. unfold data_shape, data_shape_b in H. apply andb_true_iff in H. destruct H as [Hc Hl].
-  pose proof (intro_derives G Ht_base Ht_intro (dc_lead d) _ (dc_pad d) (dc_kw d)
-                (dcls_derives G Ht_par (dc_cls d))) as HI.
-  unfold data_toks. rewrite !classes_app.
-  destruct (dc_data d) as [l|]; [|congruence].
-  rule "tally" ["introduction"; "tally_specification"].
-  rewrite !app_assoc. apply DF_cons.
-  - rewrite <- !app_assoc. exact HI.
-  - apply DF_last. rule "tally_specification" ["tally_numbers"]. apply DF_last.
-    rule "tally_numbers" ["number_sequence"]. apply DF_last. apply (nlist_derives G Ht_base l Hl).
+  intros [l|pl l pr] H; simpl in H.
+  - apply (tinums_derives G Ht_base Ht_common l H).
+  - pose proof (nlist_derives G Ht_base l H) as HL.
+    assert (Hg : Derives G "tally_group" ("(" :: classes (opad_toks pl) ++ classes (nlist_toks l) ++ [")"])).
+    { destruct pl as [p|]; simpl opad_toks.
+      - rule "tally_group" ["("; "padding"; "number_sequence"; ")"]. dtok.
+        apply DF_cons; [apply pad_derives; exact Ht_base|]. apply DF_cons; [exact HL|dend].
+      - rewrite ?classes_nil, ?classes_nil', app_nil_l.
+        rule "tally_group" ["("; "number_sequence"; ")"]. dtok. apply DF_cons; [exact HL|dend]. }
+    assert (Hn : Derives G "tally_numbers" ("(" :: classes (opad_toks pl) ++ classes (nlist_toks l) ++ [")"])).
+    { rule "tally_numbers" ["tally_group"]. apply DF_last. exact Hg. }
+    cbn [titem_toks]. rewrite !classes_app. change (classes [("(", "(")]) with ["("].
+    change (classes [(")", ")")]) with [")"].
+    replace (["("] ++ classes (opad_toks pl) ++ classes (nlist_toks l) ++ [")"] ++ classes (opad_toks pr))
+      with (("(" :: classes (opad_toks pl) ++ classes (nlist_toks l) ++ [")"]) ++ classes (opad_toks pr))
+      by (simpl; rewrite <- !app_assoc; reflexivity).
+    destruct pr as [q|]; simpl opad_toks.
+    + rule "tally_numbers" ["tally_numbers"; "padding"].
+      apply DF_cons; [exact Hn|]. apply DF_last. apply pad_derives; exact Ht_base.
+    + rewrite ?classes_nil, ?classes_nil', app_nil_r. exact Hn.
+Qed.
+
+Theorem tally_derivable : forall t, tally_shape t -> Derives G "tally" (classes (tally_toks t)).
+Proof.
+  intros t H. unfold tally_shape, tally_shape_b in H. apply andb_true_iff in H. destruct H as [_ Hit].
+  apply (tally_assemble G Ht_base Ht_par Ht_intro Ht_common).
+  apply Forall_forall. intros x Hx. apply titem_derives. rewrite forallb_forall in Hit. apply Hit. assumption.
 Qed.
 End Tally.
+
+Section TallySeg.
+Variable G : list production.
+Hypothesis Hseg : incl required_tally_seg G.
+Lemma Hs2_base : incl required_base G.
+Proof. exact (incl_app_l _ _ _ _ Hseg). Qed.
+Lemma Hs2_par : incl required_params G.
+Proof. exact (incl_app_l _ _ _ _ (incl_app_r _ _ _ _ Hseg)). Qed.
+Lemma Hs2_intro : incl required_intro G.
+Proof. exact (incl_app_l _ _ _ _ (incl_app_r _ _ _ _ (incl_app_r _ _ _ _ Hseg))). Qed.
+Lemma Hs2_common : incl required_tally_common G.
+Proof. exact (incl_app_r _ _ _ _ (incl_app_r _ _ _ _ (incl_app_r _ _ _ _ Hseg))). Qed.
+
+Theorem tallyseg_derivable : forall t, tallyseg_shape t -> Derives G "tally" (classes (tally_toks t)).
+Proof.
+  intros t H. unfold tallyseg_shape, tallyseg_shape_b in H. apply andb_true_iff in H. destruct H as [H Hflat].
+  unfold tally_shape_b in H. apply andb_true_iff in H. destruct H as [_ Hit].
+  apply (tally_assemble G Hs2_base Hs2_par Hs2_intro Hs2_common).
+  apply Forall_forall. intros x Hx.
+  rewrite forallb_forall in Hit, Hflat. specialize (Hit x Hx). specialize (Hflat x Hx).
+  destruct x as [l|pl l pr]; simpl in Hflat; [|discriminate].
+  apply (tinums_derives G Hs2_base Hs2_common l Hit).
+Qed.
+End TallySeg.
+
+(* ------------------------------------------------------------------ SDEF (ParamOnlyDataParser) *)
+Definition required_param_only_only : list production := [
+  ("param_data_input", ["param_introduction"; "spec_parameters"]);
+  ("param_introduction", ["classifier_phrase"]);
+  ("param_introduction", ["padding"; "classifier_phrase"]);
+  ("classifier_phrase", ["classifier"; "padding"]);
+  ("spec_parameters", ["spec_parameter"]);
+  ("spec_parameters", ["spec_parameters"; "spec_parameter"]);
+  ("spec_parameter", ["spec_classifier"; "param_seperator"; "data"]);
+  ("spec_classifier", ["spec_data_prefix"]);
+  ("spec_data_prefix", ["KEYWORD"]);
+  ("data", ["number_sequence"]);
+  ("data", ["particle_sequence"]);
+  ("data", ["kitchen_sink"]);
+  ("kitchen_sink", ["kitchen_junk"]);
+  ("kitchen_sink", ["kitchen_sink"; "kitchen_junk"]);
+  ("kitchen_junk", ["particle_sequence"]);
+  ("kitchen_junk", ["number_sequence"])
+].
+Definition required_param_only : list production :=
+  required_base ++ required_params ++ required_particles ++ required_param_only_only.
+
+Section Sdef.
+Variable G : list production.
+Hypothesis Hsd : incl required_param_only G.
+Lemma Hsd_base : incl required_base G.
+Proof. exact (incl_app_l _ _ _ _ Hsd). Qed.
+Lemma Hsd_par : incl required_params G.
+Proof. exact (incl_app_l _ _ _ _ (incl_app_r _ _ _ _ Hsd)). Qed.
+Lemma Hsd_parts : incl required_particles G.
+Proof. exact (incl_app_l _ _ _ _ (incl_app_r _ _ _ _ (incl_app_r _ _ _ _ Hsd))). Qed.
+Lemma Hsd_only : incl required_param_only_only G.
+Proof. exact (incl_app_r _ _ _ _ (incl_app_r _ _ _ _ (incl_app_r _ _ _ _ Hsd))). Qed.
+Let Ho := Hsd_only.
+
+Lemma sval_derives : forall v, sval_ok v = true -> Derives G "data" (classes (sval_toks v)).
+Proof.
+  intros [l|p|n p] H; simpl in H; cbn [sval_toks].
+  - rule "data" ["number_sequence"]. apply DF_last. apply (nlist_derives G Hsd_base l H).
+  - rule "data" ["particle_sequence"]. apply DF_last.
+    rule "particle_sequence" ["particle_phrase"]. apply DF_last. apply (ptok_derives G Hsd_base Hsd_parts).
+  - rewrite classes_cons. cbn [fst].
+    rule "data" ["kitchen_sink"]. apply DF_last.
+    rule "kitchen_sink" ["kitchen_sink"; "kitchen_junk"].
+    change ("PARTICLE" :: classes (num_tok n :: opad_toks p)) with (["PARTICLE"] ++ classes (num_tok n :: opad_toks p)).
+    apply DF_cons.
+    + rule "kitchen_sink" ["kitchen_junk"]. apply DF_last.
+      rule "kitchen_junk" ["particle_sequence"]. apply DF_last.
+      rule "particle_sequence" ["particle_phrase"]. apply DF_last.
+      apply (particle_phrase_derives G Hsd_base Hsd_parts "PARTICLE" None). left. reflexivity.
+    + apply DF_last. rule "kitchen_junk" ["number_sequence"]. apply DF_last.
+      rule "number_sequence" ["numerical_phrase"]. apply DF_last.
+      apply (numerical_phrase_derives G Hsd_base n p).
+Qed.
+
+Lemma sparam_derives : forall s, sparam_ok s = true -> Derives G "spec_parameter" (classes (sparam_toks s)).
+Proof.
+  intros s H. unfold sparam_ok in H. apply andb_true_iff in H. destruct H as [_ Hv].
+  unfold sparam_toks. rewrite classes_cons, classes_app. cbn [fst].
+  rule "spec_parameter" ["spec_classifier"; "param_seperator"; "data"].
+  change ("KEYWORD" :: classes (sep_toks (sp_sep s)) ++ classes (sval_toks (sp_val s)))
+    with (["KEYWORD"] ++ classes (sep_toks (sp_sep s)) ++ classes (sval_toks (sp_val s))).
+  apply DF_cons.
+  - rule "spec_classifier" ["spec_data_prefix"]. apply DF_last. rule "spec_data_prefix" ["KEYWORD"]. dend.
+  - apply DF_cons; [apply sep_derives; [exact Hsd_base|exact Hsd_par]|]. apply DF_last. apply sval_derives. exact Hv.
+Qed.
+
+Theorem sdef_derivable : forall s, sdef_shape s -> Derives G "param_data_input" (classes (sdef_toks s)).
+Proof.
+  intros s H. unfold sdef_shape, sdef_shape_b in H. apply andb_true_iff in H. destruct H as [_ Hps].
+  assert (Hph : Derives G "classifier_phrase" (classes (dcls_toks (sd_cls s)) ++ classes (pad_toks (sd_pad s)))).
+  { rule "classifier_phrase" ["classifier"; "padding"]. apply DF_cons; [apply (dcls_derives G Hsd_par)|].
+    apply DF_last. apply pad_derives; exact Hsd_base. }
+  assert (HI : Derives G "param_introduction"
+                 (classes (opad_toks (sd_lead s)) ++ classes (dcls_toks (sd_cls s)) ++ classes (pad_toks (sd_pad s)))).
+  { destruct (sd_lead s) as [p|]; simpl opad_toks.
+    - rule "param_introduction" ["padding"; "classifier_phrase"].
+      apply DF_cons; [apply pad_derives; exact Hsd_base|]. apply DF_last. exact Hph.
+    - rewrite ?classes_nil, ?classes_nil', app_nil_l.
+      rule "param_introduction" ["classifier_phrase"]. apply DF_last. exact Hph. }
+  unfold sdef_toks. rewrite !classes_app, classes_flat_map.
+  match goal with
+  | |- Derives _ _ (?A ++ ?B ++ ?C ++ ?D ++ ?E) =>
+      replace (A ++ B ++ C ++ D ++ E) with ((A ++ B ++ C) ++ (D ++ E))
+        by (rewrite <- !app_assoc; reflexivity)
+  end.
+  rule "param_data_input" ["param_introduction"; "spec_parameters"]. apply DF_cons; [exact HI|]. apply DF_last.
+  apply (leftrec_derives G "spec_parameters" "spec_parameter") with (f := fun x => classes (sparam_toks x)).
+  - use_prod.
+  - use_prod.
+  - apply Forall_forall. intros x Hx. apply sparam_derives. rewrite forallb_forall in Hps. apply Hps. assumption.
+Qed.
+End Sdef.
 
 (* ------------------------------------------------------------------ materials *)
 Definition required_material_only : list production := [
   ("material", ["introduction"; "isotopes"]);
   ("material", ["introduction"; "isotopes"; "parameters"]);
   ("isotopes", ["isotope_fractions"]);
+  ("isotopes", ["number_sequence"]);
+  ("isotopes", ["isotope_hybrid_fractions"]);
+  ("isotope_hybrid_fractions", ["number_sequence"; "isotope_fraction"]);
+  ("isotope_hybrid_fractions", ["isotope_hybrid_fractions"; "isotope_fraction"]);
   ("isotope_fractions", ["isotope_fraction"]);
   ("isotope_fractions", ["isotope_fractions"; "isotope_fraction"]);
   ("isotope_fraction", ["zaid_phrase"; "number_phrase"]);
@@ -1004,27 +1400,22 @@ Variable G : list production.
 Hypothesis Hmat : incl required_material G.
 
 Lemma Hm_base : incl required_base G.
-Proof. intros p Hp. apply Hmat. unfold required_material. apply in_or_app. left. assumption. Qed.
+Proof. exact (incl_app_l _ _ _ _ Hmat). Qed.
 Lemma Hm_par : incl required_params G.
-Proof. intros p Hp. apply Hmat. unfold required_material. apply in_or_app. right. apply in_or_app. left. assumption. Qed.
+Proof. exact (incl_app_l _ _ _ _ (incl_app_r _ _ _ _ Hmat)). Qed.
 Lemma Hm_intro : incl required_intro G.
-Proof.
-  intros p Hp. apply Hmat. unfold required_material. apply in_or_app. right. apply in_or_app. right.
-  apply in_or_app. left. assumption.
-Qed.
+Proof. exact (incl_app_l _ _ _ _ (incl_app_r _ _ _ _ (incl_app_r _ _ _ _ Hmat))). Qed.
 Lemma Hm_only : incl required_material_only G.
-Proof.
-  intros p Hp. apply Hmat. unfold required_material. apply in_or_app. right. apply in_or_app. right.
-  apply in_or_app. right. assumption.
-Qed.
+Proof. exact (incl_app_r _ _ _ _ (incl_app_r _ _ _ _ (incl_app_r _ _ _ _ Hmat))). Qed.
 Let Hb := Hm_base.
 Let Hp := Hm_par.
 Let Ho := Hm_only.
 
-Lemma zfrac_derives : forall z, nonzero (z_frac z) = true ->
+(* a ZAID with a library and its fraction *)
+Lemma zfrac_derives : forall z, z_lib z = true -> nonzero (z_frac z) = true ->
   Derives G "isotope_fraction" (classes (zfrac_toks z)).
 Proof.
-  intros z H. unfold zfrac_toks. rewrite classes_cons, classes_app. cbn [fst].
+  intros z Hl H. unfold zfrac_toks. rewrite Hl, classes_cons, classes_app. cbn [fst].
   change ("ZAID" :: classes (opad_toks (z_pad z)) ++ classes (num_tok (z_frac z) :: opad_toks (z_trail z)))
     with (("ZAID" :: classes (opad_toks (z_pad z))) ++ classes (num_tok (z_frac z) :: opad_toks (z_trail z))).
   rule "isotope_fraction" ["zaid_phrase"; "number_phrase"]. apply DF_cons.
@@ -1034,12 +1425,77 @@ Proof.
   - apply DF_last. apply (number_phrase_derives G Hb _ _ H).
 Qed.
 
+(* a ZAID without a library is a NUMBER: the pair is two numerical phrases *)
+Lemma plain_split : forall z, z_lib z = false -> nonzero (z_frac z) = true ->
+  exists a b, classes (zfrac_toks z) = a ++ b /\
+              Derives G "numerical_phrase" a /\ Derives G "numerical_phrase" b.
+Proof.
+  intros z Hl H. exists ("NUMBER" :: classes (opad_toks (z_pad z))), (classes (num_tok (z_frac z) :: opad_toks (z_trail z))).
+  split; [unfold zfrac_toks; rewrite Hl, classes_cons, classes_app; reflexivity|]. split.
+  - rule "numerical_phrase" ["number_phrase"]. apply DF_last.
+    destruct (z_pad z) as [p|]; simpl opad_toks.
+    + rule "number_phrase" ["NUMBER"; "padding"]. dtok. apply DF_last. apply pad_derives; exact Hb.
+    + rule "number_phrase" ["NUMBER"]. dend.
+  - apply (numerical_phrase_derives G Hb).
+Qed.
+
+(* what the pairs read so far are: only plain pairs (a number_sequence), or — once a ZAID with a library has been
+   seen — isotope_fractions / isotope_hybrid_fractions *)
+Definition iso_state (seen : bool) (ts : list string) : Prop :=
+  if seen then Derives G "isotope_fractions" ts \/ Derives G "isotope_hybrid_fractions" ts
+  else Derives G "number_sequence" ts.
+
+Lemma iso_more : forall l seen pre,
+  iso_state seen pre -> plain_first seen l = true -> forallb (fun z => nonzero (z_frac z)) l = true ->
+  exists seen', iso_state seen' (pre ++ flat_map (fun z => classes (zfrac_toks z)) l).
+Proof.
+  induction l as [|z l IH]; intros seen pre Hst Hpf Hnz; cbn [flat_map].
+  - exists seen. rewrite app_nil_r. exact Hst.
+  - simpl in Hpf, Hnz. apply andb_true_iff in Hnz. destruct Hnz as [Hz Hnz]. rewrite app_assoc.
+    destruct (z_lib z) eqn:El.
+    + apply (IH true); [|exact Hpf|exact Hnz].
+      pose proof (zfrac_derives z El Hz) as HZ. unfold iso_state in *. destruct seen.
+      * destruct Hst as [Hs|Hs].
+        -- left. rule "isotope_fractions" ["isotope_fractions"; "isotope_fraction"].
+           apply DF_cons; [exact Hs|apply DF_last; exact HZ].
+        -- right. rule "isotope_hybrid_fractions" ["isotope_hybrid_fractions"; "isotope_fraction"].
+           apply DF_cons; [exact Hs|apply DF_last; exact HZ].
+      * right. rule "isotope_hybrid_fractions" ["number_sequence"; "isotope_fraction"].
+        apply DF_cons; [exact Hst|apply DF_last; exact HZ].
+    + apply andb_true_iff in Hpf. destruct Hpf as [Hseen Hpf]. destruct seen; [discriminate|].
+      apply (IH false); [|exact Hpf|exact Hnz].
+      destruct (plain_split z El Hz) as [a [b [E [Ha Hbb]]]]. rewrite E, app_assoc. unfold iso_state in *.
+      rule "number_sequence" ["number_sequence"; "numerical_phrase"]. apply DF_cons; [|apply DF_last; exact Hbb].
+      rule "number_sequence" ["number_sequence"; "numerical_phrase"]. apply DF_cons; [exact Hst|apply DF_last; exact Ha].
+Qed.
+
+Lemma isotopes_derives : forall z l,
+  plain_first false (z :: l) = true -> forallb (fun z => nonzero (z_frac z)) (z :: l) = true ->
+  Derives G "isotopes" (classes (zfrac_toks z) ++ flat_map (fun z => classes (zfrac_toks z)) l).
+Proof.
+  intros z l Hpf Hnz. simpl in Hpf, Hnz. apply andb_true_iff in Hnz. destruct Hnz as [Hz Hnz].
+  assert (Hex : exists seen, iso_state seen (classes (zfrac_toks z)) /\ plain_first seen l = true).
+  { destruct (z_lib z) eqn:El.
+    - exists true. split; [|exact Hpf]. left. rule "isotope_fractions" ["isotope_fraction"]. apply DF_last.
+      apply zfrac_derives; assumption.
+    - exists false. simpl in Hpf. split; [|exact Hpf].
+      destruct (plain_split z El Hz) as [a [b [E [Ha Hbb]]]]. rewrite E. unfold iso_state.
+      rule "number_sequence" ["number_sequence"; "numerical_phrase"]. apply DF_cons; [|apply DF_last; exact Hbb].
+      rule "number_sequence" ["numerical_phrase"]. apply DF_last. exact Ha. }
+  destruct Hex as [seen [Hst Hpf']].
+  destruct (iso_more l seen _ Hst Hpf' Hnz) as [seen' Hfin]. unfold iso_state in Hfin. destruct seen'.
+  - destruct Hfin as [H|H].
+    + rule "isotopes" ["isotope_fractions"]. apply DF_last. exact H.
+    + rule "isotopes" ["isotope_hybrid_fractions"]. apply DF_last. exact H.
+  - rule "isotopes" ["number_sequence"]. apply DF_last. exact Hfin.
+Qed.
+
 Lemma mparam_derives : forall m, mparam_ok m = true -> Derives G "parameter" (classes (mparam_toks m)).
 Proof.
-  intros m H.
+  intros m H. unfold mparam_ok in H. apply andb_true_iff in H. destruct H as [_ H].
   assert (Hk : Derives G "classifier" ["KEYWORD"]).
   { rule "classifier" ["data_prefix"]. apply DF_last. rule "data_prefix" ["KEYWORD"]. dend. }
-  destruct m as [k s v|k s lib p]; simpl in H; unfold mparam_toks; rewrite classes_cons, classes_app; cbn [fst].
+  destruct m as [k s v|k s lib p]; unfold mparam_toks; rewrite classes_cons, classes_app; cbn [fst].
   - rule "parameter" ["classifier"; "param_seperator"; "number_sequence"].
     change ("KEYWORD" :: classes (sep_toks s) ++ classes (nlist_toks v))
       with (["KEYWORD"] ++ classes (sep_toks s) ++ classes (nlist_toks v)).
@@ -1058,19 +1514,14 @@ Qed.
 Theorem material_derivable : forall m, matcard_shape m -> Derives G "material" (classes (mat_card_toks m)).
 Proof.
   intros m H. unfold matcard_shape, matcard_shape_b in H.
-  apply andb_true_iff in H. destruct H as [H Hps]. apply andb_true_iff in H. destruct H as [Hn Hz].
+  apply andb_true_iff in H. destruct H as [H Hps]. apply andb_true_iff in H. destruct H as [H Hpf].
+  apply andb_true_iff in H. destruct H as [Hn Hz].
   assert (Hcl : Derives G "classifier" ["TEXT"; "NUMBER"]).
   { rule "classifier" ["classifier"; "NUMBER"]. change ["TEXT"; "NUMBER"] with (["TEXT"] ++ ["NUMBER"]).
     apply DF_cons; [|dend]. rule "classifier" ["data_prefix"]. apply DF_last. rule "data_prefix" ["TEXT"]. dend. }
   pose proof (intro_derives G Hb Hm_intro (m_lead m) _ (m_pad m) None Hcl) as HI.
   rewrite ?classes_nil, ?classes_nil', app_nil_r in HI.
-  assert (HZ : Derives G "isotopes"
-                 (classes (zfrac_toks (m_first m)) ++ flat_map (fun z => classes (zfrac_toks z)) (m_rest m))).
-  { rule "isotopes" ["isotope_fractions"]. apply DF_last.
-    apply (leftrec_derives G "isotope_fractions" "isotope_fraction") with (f := fun z => classes (zfrac_toks z)).
-    - use_prod.
-    - use_prod.
-    - apply Forall_forall. intros z Hzin. apply zfrac_derives. rewrite forallb_forall in Hz. apply Hz. assumption. }
+  pose proof (isotopes_derives (m_first m) (m_rest m) Hpf Hz) as HZ.
   unfold mat_card_toks. rewrite !classes_app, !classes_flat_map.
   change (classes [("TEXT", "m"); ("NUMBER", show_nat (m_num m))]) with ["TEXT"; "NUMBER"].
   match goal with
@@ -1104,19 +1555,13 @@ Variable G : list production.
 Hypothesis Hth : incl required_thermal G.
 
 Lemma Hth_base : incl required_base G.
-Proof. intros p Hp. apply Hth. unfold required_thermal. apply in_or_app. left. assumption. Qed.
+Proof. exact (incl_app_l _ _ _ _ Hth). Qed.
 Lemma Hth_par : incl required_params G.
-Proof. intros p Hp. apply Hth. unfold required_thermal. apply in_or_app. right. apply in_or_app. left. assumption. Qed.
+Proof. exact (incl_app_l _ _ _ _ (incl_app_r _ _ _ _ Hth)). Qed.
 Lemma Hth_intro : incl required_intro G.
-Proof.
-  intros p Hp. apply Hth. unfold required_thermal. apply in_or_app. right. apply in_or_app. right.
-  apply in_or_app. left. assumption.
-Qed.
+Proof. exact (incl_app_l _ _ _ _ (incl_app_r _ _ _ _ (incl_app_r _ _ _ _ Hth))). Qed.
 Lemma Hth_only : incl required_thermal_only G.
-Proof.
-  intros p Hp. apply Hth. unfold required_thermal. apply in_or_app. right. apply in_or_app. right.
-  apply in_or_app. right. assumption.
-Qed.
+Proof. exact (incl_app_r _ _ _ _ (incl_app_r _ _ _ _ (incl_app_r _ _ _ _ Hth))). Qed.
 Let Hb := Hth_base.
 Let Hp := Hth_par.
 Let Ho := Hth_only.
@@ -1151,3 +1596,72 @@ Proof.
   - apply Forall_forall. intros l _. apply law_derives.
 Qed.
 End Thermal.
+
+(* ------------------------------------------------------------------ the LR driver is sound for the CFG:
+   whatever [lr_run] accepts is derivable from the start symbol in the production table it was given *)
+Section LRSound.
+Variable T : lr_table.
+Let G := lr_prods T.
+
+Lemma DF_split : forall a b x, DerivesF G (a ++ b) x ->
+  exists x1 x2, x = x1 ++ x2 /\ DerivesF G a x1 /\ DerivesF G b x2.
+Proof.
+  induction a as [|s a IH]; intros b x H; simpl in H.
+  - exists [], x. split; [reflexivity|]. split; [constructor|assumption].
+  - inversion H as [|t rest ts Htok Hrest|nt rhs rest ts1 ts2 Hin Hrhs Hrest]; subst.
+    + destruct (IH _ _ Hrest) as [x1 [x2 [E [Ha Hbb]]]]. subst.
+      exists (s :: x1), x2. split; [reflexivity|]. split; [constructor; assumption|assumption].
+    + destruct (IH _ _ Hrest) as [x1 [x2 [E [Ha Hbb]]]]. subst.
+      exists (ts1 ++ x1), x2. split; [rewrite app_assoc; reflexivity|]. split; [|assumption].
+      econstructor; eauto.
+Qed.
+
+Lemma pop_check_spec : forall rr stack below, pop_check rr stack = Some below ->
+  exists popped, stack = popped ++ below /\ map snd popped = rr.
+Proof.
+  induction rr as [|x rr IH]; intros stack below H; simpl in H.
+  - inversion H; subst. exists []. split; reflexivity.
+  - destruct stack as [|[st y] stack]; [discriminate|].
+    destruct (String.eqb x y) eqn:E; [|discriminate]. apply String.eqb_eq in E. subst.
+    destruct (IH _ _ H) as [popped [Hs Hm]]. exists ((st, y) :: popped). split; simpl; congruence.
+Qed.
+
+Definition syms (stack : list (Z * string)) : list string := rev (map snd stack).
+
+Lemma lr_loop_sound : forall fuel stack input pos consumed,
+  DerivesF G (syms stack) consumed -> lr_loop T fuel stack input pos = LRAccept ->
+  Derives G (lr_start T) (consumed ++ input).
+Proof.
+  induction fuel as [|f IH]; intros stack input pos consumed Hinv Hrun; simpl in Hrun; [discriminate|].
+  destruct (lr_lookup T (top_state stack) (match input with [] => "$end" | t :: _ => t end)) as [a|]; [|discriminate].
+  destruct (0 <? a)%Z.
+  - (* shift *)
+    destruct input as [|t rest]; [discriminate|]. destruct (is_token t) eqn:Et; [|discriminate].
+    replace (consumed ++ t :: rest) with ((consumed ++ [t]) ++ rest) by (rewrite <- app_assoc; reflexivity).
+    refine (IH _ _ _ _ _ Hrun). unfold syms. simpl. apply DF_app; [exact Hinv|].
+    apply DF_tok1. exact Et.
+  - destruct (a <? 0)%Z.
+    + (* reduce *)
+      destruct (nth_error (lr_prods T) (Z.to_nat (- a) - 1)) as [[lhs rhs]|] eqn:En; [|discriminate].
+      destruct (pop_check (rev rhs) stack) as [below|] eqn:Ep; [|discriminate].
+      destruct (index_of lhs (lr_nonterms T) 0%Z) as [ni|]; [|discriminate].
+      destruct (assocZ ni (nth (Z.to_nat (top_state below)) (lr_goto T) [])) as [g|]; [|discriminate].
+      refine (IH _ _ _ _ _ Hrun).
+      destruct (pop_check_spec _ _ _ Ep) as [popped [Hs Hm]]. subst stack.
+      unfold syms in *. rewrite map_app, rev_app_distr, Hm, rev_involutive in Hinv.
+      destruct (DF_split _ _ _ Hinv) as [x1 [x2 [E [H1 H2]]]]. subst consumed.
+      simpl. apply DF_app; [exact H1|]. apply DF_last. apply (derive_rule G lhs rhs); [|exact H2].
+      apply nth_error_In in En. exact En.
+    + (* accept *)
+      destruct stack as [|[st s] [|e stack]]; try discriminate.
+      destruct input; [|discriminate].
+      destruct (String.eqb s (lr_start T)) eqn:Es; [|discriminate]. apply String.eqb_eq in Es. subst.
+      rewrite app_nil_r. exact Hinv.
+Qed.
+
+Theorem lr_sound : forall ts, lr_run T ts = LRAccept -> Derives G (lr_start T) ts.
+Proof.
+  intros ts H. unfold lr_run in H.
+  apply (lr_loop_sound _ [] ts 0 []) in H; [exact H|]. constructor.
+Qed.
+End LRSound.
